@@ -317,6 +317,26 @@ def run_config(ctx, case, npts=None):
         except Exception as e:
             ctx.check("censored", False, f"{name}|backward_censored-raises", case,
                       {"exc": repr(e)})
+        # ... and with a threshold below every value (below the domain of the transform
+        # where it has a lower end): nothing is censored
+        xmin_ = float(np.min(x))
+        for c_low in (xmin_ - 10.0 * (abs(xmin_) + 1.0), xmin_ - 1.0 - abs(xmin_) * 1e-3):
+            if not np.isfinite(c_low) or not c_low < xmin_:
+                continue
+            ctx.api(f"{name}.backward_censored")
+            ctx.tag("censored:threshold-below-everything")
+            try:
+                xl = np.asarray(call(t.backward_censored, y.copy(), c_low), dtype=float)
+                errl = np.abs(xl - x) / np.maximum(np.abs(x), sx)
+                badl = np.where(adm & ~(errl <= 1e-6))[0]
+                ctx.check("censored.low-threshold", len(badl) == 0,
+                          f"{name}|backward_censored|threshold-below-everything", case,
+                          lambda: {"censor": c_low, "x": float(x[badl[0]]),
+                                   "got": float(xl[badl[0]]), "params": actual})
+            except Exception as e:
+                ctx.check("censored.low-threshold", False,
+                          f"{name}|backward_censored-raises|threshold-below-everything",
+                          case, {"exc": repr(e), "censor": c_low})
 
 
 def run_softmax(ctx, t, case, rng):
